@@ -5,4 +5,4 @@ Require Import SquidV.Bytes SquidV.TokModel SquidV.ReqparseModel.
 Extraction "m_reqparse.ml"
   lenN rst0 do_parse drive_raw needs_more first_line_size
   r_stage r_mid r_mimg r_uri r_http r_major r_minor r_mime r_code
-  parse_whole parse_segments.
+  parse_whole parse_segments resp_head_decision.
